@@ -16,9 +16,10 @@ package filesystem
 // artifactFileName: the config path with everything from its last dot on replaced by ".pem" (C10, C18)
 //@ func (fsMetadata).artifactFileName returns (r)
 //@   bounded TestVerifBoundedArtifactName
-//@   props C10 C18
+// (C13: the stored hash is written to and read back from this name; two configurations must not share it)
+//@   props C10 C18 C13
 //@   requires contains(f.configFileName, ".")
-//@   ensures @C10,C18 r == artNameOf(f.configFileName)
+//@   ensures @C10,C18,C13 r == artNameOf(f.configFileName)
 
 // exportPemFile is the only writer of artifacts: it writes at most the artifact file of the alias, and what it
 // writes is the hash line followed by the certificate, key and request blocks that are present (C10, C13, C14).
@@ -81,16 +82,24 @@ package filesystem
 //@   props C18
 //@   requires fsdb != nil
 //@   ensures r == (if has(fsdb.subscribersOf, alias) then fsdb.subscribersOf[alias] else typed(#nilSlice, "[]string"))
+// (C09, C08: a certificate is validated against and merged with the profile it names - profiles are stored and found
+// under exactly their own name, so two profiles never answer for each other)
 //@ func (*FsDb).GetProfile returns (p, err)
-//@   props C18
+//@   props C18 C09 C08
 //@   requires fsdb != nil
-//@   ensures err == nil && p == (if has(fsdb.profiles, name) then fsdb.profiles[name] else nil)
+//@   ensures @C18,C09,C08 err == nil && p == (if has(fsdb.profiles, name) then fsdb.profiles[name] else nil)
+//@ func (*FsDb).AddProfile returns (err)
+//@   props C09 C08
+//@   requires fsdb != nil && fsdb.profiles != nil
+//@   modifies HM_String_Int, HMD_String, HMLEN
+//@   ensures @C09,C08 err == nil && has(fsdb.profiles, profile.Name) && fsdb.profiles[profile.Name] != nil && deref(fsdb.profiles[profile.Name]) == profile
+//@   ensures @C09,C08 forall n string :: n != profile.Name ==> has(fsdb.profiles, n) == old(has(fsdb.profiles, n)) && fsdb.profiles[n] == old(fsdb.profiles[n])
 
 // importPem: what ReadPem found is taken over; a key wins over a request (C14)
 //@ func (*FsDb).importPem returns (res)
-//@   props C14 C20
+//@   props C14 C20 C11
 //@   ghostret PEM gopki/generator/cert.PemFileContent = callres("gopki/generator/cert.ReadPem", 1, 0)
-//@   ensures @C14 res.Certificate == PEM.Certificate && res.PrivateKey == PEM.PrivateKey && res.Request == (if PEM.PrivateKey == nil then PEM.Request else nil)
+//@   ensures @C14,C11 res.Certificate == PEM.Certificate && res.PrivateKey == PEM.PrivateKey && res.Request == (if PEM.PrivateKey == nil then PEM.Request else nil)
 
 // importCertConfigFile (C18, C20): alias = explicit alias, else the base name of the config path; a second file for
 // an existing alias is an error; a new alias is entered into configs, metadata, artifacts and exactly one of the root
@@ -138,7 +147,7 @@ package filesystem
 // configuration, under the path it was found at; files that do not parse are skipped without an error.
 //@ func importFiles$1 returns (res)
 //@   bounded TestVerifBoundedArtifactBytes
-//@   props C18 C20
+//@   props C18 C20 C09 C08
 //@   uses strings.smt2
 //@   let MAPSF = deref(fsdb) != nil && deref(fsdb).configs != nil && deref(fsdb).artifacts != nil && deref(fsdb).fsMetadata != nil && deref(fsdb).profiles != nil && deref(fsdb).subscribersOf != nil && deref(fsdb).configs != deref(fsdb).artifacts && deref(fsdb).configs != deref(fsdb).fsMetadata && deref(fsdb).artifacts != deref(fsdb).fsMetadata && deref(fsdb).profiles != deref(fsdb).configs && deref(fsdb).profiles != deref(fsdb).artifacts && deref(fsdb).profiles != deref(fsdb).fsMetadata && deref(fsdb).subscribersOf != deref(fsdb).configs && deref(fsdb).subscribersOf != deref(fsdb).artifacts && deref(fsdb).subscribersOf != deref(fsdb).fsMetadata && deref(fsdb).subscribersOf != deref(fsdb).profiles
 //@   requires MAPSF
@@ -159,6 +168,9 @@ package filesystem
 //@   ensures @C18 called("invoke:io/fs.FS.Open", 1) && callres("invoke:io/fs.FS.Open", 1, 1) == nil ==> called("gopki/generator/config.ParseConfig", 1)
 //@   ensures @C18 err == nil && called("(io/fs.FileMode).IsDir", 1) && !ISDIR && called("invoke:io/fs.DirEntry.Name", 1) && SUFFIX ==> called("invoke:io/fs.FS.Open", 1)
 //@   ensures @C18,C20 MAPSF
+// (C09, C08: a parsed profile is stored under exactly its own name, the key GetProfile looks it up by)
+//@   let PPTR = typed(unboxRef(PARSED), "*gopki/generator/config.CertificateProfile")
+//@   ensures @C09,C08 err == nil && called("gopki/generator/config.ParseConfig", 1) && callres("gopki/generator/config.ParseConfig", 1, 1) == nil && typeis(PARSED, "*gopki/generator/config.CertificateProfile") ==> has(deref(fsdb).profiles, deref(PPTR).Name) && deref(fsdb).profiles[deref(PPTR).Name] == PPTR
 //@   ensures @C18,C20 forall a string :: has(deref(fsdb).fsMetadata, a) ==> deref(fsdb).fsMetadata[a] != nil && contains(deref(deref(fsdb).fsMetadata[a]).configFileName, ".")
 
 // importFiles: only a filesystem database can be filled from a directory.
